@@ -100,9 +100,10 @@ def build_on(a, ds):
     if op == 'shuffle':
         return ds.shuffle(False, rng=ScriptedRng(a['perm']))
     if op == 'sort':
+        kw = {} if a.get('sfn', 'std') == 'std' else {'sort_fn': U.sortfn(a['sfn'])}
         if a['key'] == 'none':
-            return ds.sort(reverse=a['rev'])
-        return ds.sort(U.keyfn(a['key']), reverse=a['rev'])
+            return ds.sort(reverse=a['rev'], **kw)
+        return ds.sort(U.keyfn(a['key']), reverse=a['rev'], **kw)
     if op == 'split':
         return ds.split(a['sk'])[a['si']]
     if op == 'shard':
